@@ -109,7 +109,8 @@ CHECKS.update({
              "result is the path itself if absolute, else the first existing dir/path of the explicit list if one is given (environment never "
              "consulted), else of the environment list, else the path as given. Parts (b), (c): include PROJECTS (virtual files including "
              "each other: sequences, nesting to depth 3, siblings with nested includes, the same file twice, stdgates.inc mixed with files, "
-             "faults inside included files, empty files, includes below the global scope) run through the real parse_source_and_includes / "
+             "faults inside included files, empty files, includes below the global scope, annotations / pragmas ending an included file, before an "
+             "include and inside a file) run through the real parse_source_and_includes / "
              "parse_included_files / SourceFile::new and ALL of syntax_to_semantic (Include arm) from MIR with every file's readability, "
              "existence and io::ErrorKind symbolic. For every oracle answer: no panic; graph and symbols equal those of the FLAT program "
              "(readable files written at the include sites); the same diagnostic kinds; one list per include occurrence tagged with the "
@@ -117,15 +118,18 @@ CHECKS.update({
         note="Trusted: Path/PathBuf abstract values with structural join, get_file_search_paths_from_env stubbed (env::split_paths not "
              "analysed), SourceFile::parse_check_lex as the parse boundary (lexer gating is C11's), fs::read_to_string / fs::canonicalize as "
              "symbolic oracles (readable => exists), tree / map / string models, MIR dump, z3. Part (a) violations are not replayed natively "
-             "(no public entry point with an oracle file system). Bounds: 12 projects, include depth <= 3; include cycles outside.",
+             "(no public entry point with an oracle file system). Bounds: 20 projects, include depth <= 3; include cycles outside.",
         technique=MC, design="6/C18"),
     "C19": dict(
         text="All of symbols.rs is executed from MIR with hashbrown::HashMap replaced by an abstract finite map; the history's opcodes and name "
              "characters are solver variables, so every history of the property's operations up to the bound is one explored path. After each "
              "operation look-up, binding, scope exit, id allocation, id stability (also after scope exit) and the built-ins are compared with a "
-             "stack-of-maps oracle. Violations are replayed natively through the oq3_verif hook.",
+             "stack-of-maps oracle. A second family of histories binds gates and hardware qubits in nested scopes and compares the listing "
+             "observers gates() / hardware_qubits() (real iterator chains from MIR) with the oracle: exactly the symbols bound, in id order, "
+             "each under the id new_binding handed out, `U` left out. Violations are replayed natively through the oq3_verif hook.",
         note="Trusted: the abstract map has HashMap's documented contract (hashbrown itself is not analysed), MIR dump, z3. Bounds: histories of "
-             "length <= 5 (quick) / 7 (thorough) over 6 opcodes x 2 names x 2 types; longer histories are outside the claim.",
+             "length <= 5 (quick) / 7 (thorough) over 6 opcodes x 2 names x 2 types, observer histories <= 4 / 5 over 5 opcodes; longer histories "
+             "are outside the claim.",
         technique=MC, design="6/C19"),
     "C20": dict(
         text="promote_types and can_cast_literal (and the helpers they call, incl. the derived PartialEq/Clone) are executed from MIR on every "
@@ -241,11 +245,15 @@ CHECKS.update({
              "graph, symbol table and diagnostic kinds are proved equal to the canonical layout's on every path. (b) renaming: every user "
              "identifier is a symbolic letter constrained injective and different from built-in / standard gate names; the result is proved "
              "equal to the base result with the same ids and each symbol (and each diagnostic payload) named by its variable. (c) one pass: "
-             "for P and P + S (12 suffix statements with symbolic names) statements, symbols and diagnostics of P are a prefix. (d) "
+             "for P and P + S (12 suffix statements with symbolic names) statements, symbols and diagnostics of P are a prefix. Lexical arm: (a)-(c) "
+             "start from token tables, so the real lexer (LexedStr::new from MIR) is run on every spelling of the identifier lexeme (<= 3 "
+             "symbolic code points, reference grammar incl. `_` and non-ASCII letters) alone and next to other lexemes with every permitted "
+             "separator: always exactly one IDENT token, no diagnostic - the token table does not depend on the names chosen. (d) "
              "determinism: the MIR call graph from syntax_to_semantic (446 functions) contains no hash-map iteration, clock, randomness, "
              "environment, atomics or thread-local access; the map model refuses iteration.",
         note="Trusted: tree / map / string models, MIR dump, z3; the lexer maps layouts to the token tables used here (C14, C15). Bounds: "
-             "16 base programs, 1 (quick) / 1-2 trivia tokens per gap with one ASCII character each, one-letter names.",
+             "22 base programs, 1-2 (quick) / 1-3 trivia tokens per gap with one ASCII character each, one-letter names in the relational runs, "
+             "identifier spellings <= 3 code points in the lexical arm.",
         technique=S2, design="6/C17"),
 })
 
